@@ -1,5 +1,8 @@
 (* CC: facts about the transcription of compile.go (CompModel.v): the emitted words under isem,
-   the constant table, and the compilation of expressions. *)
+   the constant table, the compilation of expressions (compileExpr_ok: value / fault / Unsup as
+   pev says), the operand peepholes (kmv_ok, mv_ok), statements (local_ok, assign_ok, return_ok),
+   chunks (chunk_ok) and the front half of frag_compile_correct (front_half_lemma, whose statement
+   is CC/FragGlue.front_half). *)
 From Coq Require Import Floats Lia ZifyBool SpecFloat.
 From Coq Require FloatAxioms.
 From GL Require Import Common.Bytes Lua.Syntax Lua.Num Lua.Values Lua.Names Lua.Eval.
@@ -286,27 +289,77 @@ Inductive shape (s' : cstate) (locals : list name) (reg ln : Z) (e : expr) (seg 
 | ShOther w seg0 :
     seg = (w, ln) :: seg0 -> is_opc w OP_LOADK = false -> is_opc w OP_MOVE = false -> shape s' locals reg ln e seg.
 
-Definition sem_val (K : list value) (locals : list name) (reg : Z) (e : expr) (seg : list (Z * Z)) : Prop :=
-  forall rf v, reg <= len rf -> pevr (vlook locals rf) e = PV v ->
-  exists rf', isem_okseq K (rev seg) rf = Some rf' /\ zth rf' reg = Some v /\ len rf <= len rf' /\
-              (forall i, 0 <= i < reg -> zth rf' i = zth rf i).
+Definition rf_simple (rf : rfile) : Prop := Forall (fun v => is_simple v = true) rf.
+Definition look_simple (look : name -> option value) : Prop := forall x v, look x = Some v -> is_simple v = true.
+
+Lemma pevr_simple : forall look e v, look_simple look -> pevr look e = PV v -> is_simple v = true.
+Proof.
+  intros look e. induction e; intros v Hl H; cbn [pevr] in H; try discriminate; try (inversion H; reflexivity).
+  - destruct (look x) eqn:E; [|discriminate]. inversion H; subst. eapply Hl; eassumption.
+  - destruct (pevr look e1) as [x| |]; try discriminate. destruct (pevr look e2) as [y| |]; try discriminate.
+    unfold parith in H. destruct x; try discriminate; destruct y; try discriminate.
+    destruct (arith_op o f f0); [|discriminate]. inversion H. reflexivity.
+  - destruct o; try discriminate.
+    + destruct (pevr look e) as [x| |]; try discriminate. destruct x; try discriminate. inversion H. reflexivity.
+    + destruct (pevr look e) as [x| |]; try discriminate. inversion H. reflexivity.
+  - apply IHe; assumption.
+Qed.
+
+Lemma zth_In : forall A (l : list A) i x, zth l i = Some x -> In x l.
+Proof. intros A l i x H. unfold zth in H. destruct (i <? 0); [discriminate|]. eapply nth_error_In; eassumption. Qed.
+
+Lemma vlook_simple : forall locals rf, rf_simple rf -> look_simple (vlook locals rf).
+Proof.
+  intros locals rf H x v Hv. unfold vlook in Hv. destruct (find_last locals x 0 (-1) >? -1); [|discriminate].
+  apply zth_In in Hv. unfold rf_simple in H. rewrite Forall_forall in H. auto.
+Qed.
+
+Lemma firstn_In_l : forall A (l : list A) n x, In x (firstn n l) -> In x l.
+Proof. intros A l. induction l; intros n x H; destruct n; simpl in *; try contradiction. destruct H; [left; assumption|right; eauto]. Qed.
+Lemma skipn_In_l : forall A (l : list A) n x, In x (skipn n l) -> In x l.
+Proof. intros A l. induction l; intros n x H; destruct n; simpl in *; try contradiction; auto. right. eauto. Qed.
+
+Lemma setr_simple : forall rf i v rf', rf_simple rf -> is_simple v = true -> setr rf i v = Some rf' -> rf_simple rf'.
+Proof.
+  intros rf i v rf' H Hv Hs. unfold setr in Hs. destruct ((0 <=? i) && (i <=? len rf)); [|discriminate].
+  inversion Hs; subst. unfold rf_simple in *. apply Forall_app. split.
+  - apply Forall_forall. intros x Hx. rewrite Forall_forall in H. apply H. eapply firstn_In_l; eassumption.
+  - constructor; [assumption|]. apply Forall_forall. intros x Hx. rewrite Forall_forall in H. apply H. eapply skipn_In_l; eassumption.
+Qed.
+
+Definition val_post (K : list value) (code : list (Z * Z)) (rf : rfile) (reg : Z) (v : value) : Prop :=
+  exists rf', isem_okseq K code rf = Some rf' /\ zth rf' reg = Some v /\ len rf <= len rf' /\
+              (forall i, 0 <= i < reg -> zth rf' i = zth rf i) /\ rf_simple rf'.
+
+Definition sem_val (K : list value) (locals : list name) (ln reg : Z) (e : expr) (seg : list (Z * Z)) : Prop :=
+  forall rf, reg <= len rf -> rf_simple rf ->
+  match pevr (vlook locals rf) e with
+  | PV v => val_post K (rev seg) rf reg v
+  | PFault => forall rest, isem_code K (rev seg ++ rest) rf = CFault ln
+  | PUnsup => forall rest, isem_code K (rev seg ++ rest) rf = CUnsup
+  end.
 
 (* the conclusion about one compiled expression *)
 Definition expr_ok (s s' : cstate) (locals : list name) (ln reg : Z) (e : expr) : Prop :=
   cs_locals s' = locals /\ cs_regtop s' = len locals /\ len (cs_consts s') <= 262144 /\
   prefix_of (cs_consts s) (cs_consts s') /\
   exists seg, cs_code s' = seg ++ cs_code s /\ Forall (wl_ok ln) seg /\ shape s' locals reg ln e seg /\
-              forall K, prefix_of (cs_consts s') K -> sem_val K locals reg e seg.
+              forall K, prefix_of (cs_consts s') K -> sem_val K locals ln reg e seg.
 
 (* what an operand (compileExpr followed by a propagation) leaves *)
 Definition operand_ok (s s2 : cstate) (locals : list name) (ln reg : Z) (e : expr) (save reg' : Z) : Prop :=
   cs_locals s2 = locals /\ cs_regtop s2 = len locals /\ len (cs_consts s2) <= 262144 /\
   prefix_of (cs_consts s) (cs_consts s2) /\ 0 <= save < 512 /\ reg <= reg' <= reg + 1 /\
   exists seg', cs_code s2 = seg' ++ cs_code s /\ Forall (wl_ok ln) seg' /\
-    forall K, prefix_of (cs_consts s2) K -> forall rf v, reg <= len rf -> pevr (vlook locals rf) e = PV v ->
-      exists rf', isem_okseq K (rev seg') rf = Some rf' /\ rkval K rf' save = Some v /\ len rf <= len rf' /\
-                  reg' <= len rf' /\ (forall i, 0 <= i < reg -> zth rf' i = zth rf i) /\
-                  (opIsK save = true \/ save < reg').
+    forall K, prefix_of (cs_consts s2) K -> forall rf, reg <= len rf -> rf_simple rf ->
+      match pevr (vlook locals rf) e with
+      | PV v =>
+          exists rf', isem_okseq K (rev seg') rf = Some rf' /\ rkval K rf' save = Some v /\ len rf <= len rf' /\
+                      reg' <= len rf' /\ (forall i, 0 <= i < reg -> zth rf' i = zth rf i) /\ rf_simple rf' /\
+                      (opIsK save = true \/ save < reg')
+      | PFault => forall rest, isem_code K (rev seg' ++ rest) rf = CFault ln
+      | PUnsup => forall rest, isem_code K (rev seg' ++ rest) rf = CUnsup
+      end.
 
 Lemma is_opc_createABx : forall o o' a bx, 0 <= a < 256 -> 0 <= bx < 262144 ->
   is_opc (opCreateABx (op_code o) a bx) o' = (op_code o =? op_code o').
@@ -322,6 +375,13 @@ Proof.
   destruct (VM.OpcodeFacts.createABC_get (op_code o) a b c (op_code_range o) Ha Hb Hc) as [E0 _]. rewrite E0. reflexivity.
 Qed.
 
+Lemma is_opc_rawABC : forall opn o' a b c, 0 <= opn < 64 -> 0 <= a < 256 -> 0 <= b < 512 -> 0 <= c < 512 ->
+  is_opc (opCreateABC opn a b c) o' = (opn =? op_code o').
+Proof.
+  intros opn o' a b c Ho Ha Hb Hc. unfold is_opc.
+  destruct (VM.OpcodeFacts.createABC_get opn a b c Ho Ha Hb Hc) as [E0 _]. rewrite E0. reflexivity.
+Qed.
+
 Lemma default_operand : forall s s1 locals ln reg e,
   expr_ok s s1 locals ln reg e -> 0 <= reg < 256 ->
   operand_ok s s1 locals ln reg e reg (reg + 1).
@@ -329,10 +389,47 @@ Proof.
   intros s s1 locals ln reg e [H1 [H2 [H3 [H4 [seg [Hc [Hw [Hsh Hsem]]]]]]]] Hr.
   unfold operand_ok. repeat (split; [reflexivity || assumption || lia|]).
   exists seg. split; [assumption|]. split; [assumption|].
-  intros K HK rf v Hlen Hp. destruct (Hsem K HK rf v Hlen Hp) as [rf' [E1 [E2 [E3 E4]]]].
+  intros K HK rf Hlen Hs. specialize (Hsem K HK rf Hlen Hs).
+  destruct (pevr (vlook locals rf) e) as [v| |]; [|exact Hsem|exact Hsem].
+  destruct Hsem as [rf' [E1 [E2 [E3 [E4 E5]]]]].
   exists rf'. split; [assumption|]. pose proof (zth_range _ _ _ _ E2).
   split; [unfold rkval; rewrite small_not_K by lia; assumption|].
-  split; [assumption|]. split; [lia|]. split; [assumption|]. right. lia.
+  split; [assumption|]. split; [lia|]. split; [assumption|]. split; [assumption|]. right. lia.
+Qed.
+
+Lemma popped_const : forall s s1 locals ln reg e ci f,
+  cs_locals s1 = locals -> cs_regtop s1 = len locals -> len (cs_consts s1) <= 262144 ->
+  prefix_of (cs_consts s) (cs_consts s1) -> cs_code s1 = [(opCreateABx (op_code OP_LOADK) reg ci, ln)] ++ cs_code s ->
+  0 <= ci <= 255 -> zth (cs_consts s1) ci = Some (VNum f) -> (forall look, pevr look e = PV (VNum f)) ->
+  operand_ok s (pop_code s1) locals ln reg e (opRkAsk ci) reg.
+Proof.
+  intros s s1 locals ln reg e ci f H1 H2 H3 H4 Hc Hci Hz Hpv.
+  destruct (rk_bits ci Hci) as [B1 [B2 B3]].
+  unfold operand_ok. cbn [pop_code cs_locals cs_regtop cs_consts cs_code].
+  repeat (split; [reflexivity || assumption || lia|]).
+  exists []. split; [rewrite Hc; reflexivity|]. split; [constructor|].
+  intros K HK rf Hlen Hs. rewrite Hpv. exists rf.
+  split; [reflexivity|]. split; [unfold rkval; rewrite B1, B2; eapply prefix_zth; eassumption|].
+  split; [lia|]. split; [lia|]. split; [auto|]. split; [assumption|]. left. assumption.
+Qed.
+
+Lemma popped_var : forall s s1 locals ln reg e b,
+  cs_locals s1 = locals -> cs_regtop s1 = len locals -> len (cs_consts s1) <= 262144 ->
+  prefix_of (cs_consts s) (cs_consts s1) -> cs_code s1 = [(opCreateABC (op_code OP_MOVE) reg b 0, ln)] ++ cs_code s ->
+  0 <= b < len locals -> len locals <= reg -> len locals <= 256 ->
+  (forall rf, pevr (vlook locals rf) e = match zth rf b with Some v => PV v | None => PUnsup end) ->
+  operand_ok s (pop_code s1) locals ln reg e b reg.
+Proof.
+  intros s s1 locals ln reg e b H1 H2 H3 H4 Hc Hb Hl Hloc Hpv.
+  unfold operand_ok. cbn [pop_code cs_locals cs_regtop cs_consts cs_code].
+  repeat (split; [reflexivity || assumption || lia|]).
+  exists []. split; [rewrite Hc; reflexivity|]. split; [constructor|].
+  intros K HK rf Hlen Hs. rewrite Hpv.
+  destruct (zth rf b) as [v|] eqn:Ez.
+  2:{ exfalso. unfold zth in Ez. destruct (b <? 0) eqn:E0; [lia|]. apply nth_error_None in Ez. unfold len in *. lia. }
+  exists rf.
+  split; [reflexivity|]. split; [unfold rkval; rewrite small_not_K by lia; assumption|].
+  split; [lia|]. split; [lia|]. split; [auto|]. split; [assumption|]. right. lia.
 Qed.
 
 Lemma kmv_ok : forall s s1 locals ln reg e save reg' s2,
@@ -345,43 +442,28 @@ Proof.
   destruct Hok as [H1 [H2 [H3 [H4 [seg [Hc [Hw [Hsh Hsem]]]]]]]].
   unfold propagateKMV in Hp. rewrite Hc in Hp.
   destruct Hsh as [ci f Hseg Hci Hz Hpv | b Hseg Hb Hpv | w seg0 Hseg Hn1 Hn2]; subst seg; cbn [app] in Hp.
-  - (* a constant *)
-    destruct (decodeABx OP_LOADK reg ci Hr Hci) as [_ [EA EB]].
+  - destruct (decodeABx OP_LOADK reg ci Hr Hci) as [_ [EA EB]].
     rewrite EA, EB in Hp. rewrite H2 in Hp. replace (reg >=? len locals) with true in Hp by lia.
     rewrite (is_opc_createABx OP_LOADK OP_LOADK reg ci Hr Hci) in Hp. rewrite Z.eqb_refl in Hp.
     destruct (ci <=? opMaxIndexRk) eqn:Eci.
-    + inversion Hp; subst. unfold opMaxIndexRk in Eci.
-      destruct (rk_bits ci ltac:(lia)) as [B1 [B2 B3]].
-      unfold operand_ok. cbn [pop_code cs_locals cs_regtop cs_consts cs_code].
-      repeat (split; [reflexivity || assumption || lia|]).
-      exists []. split; [rewrite Hc; reflexivity|]. split; [constructor|].
-      intros K HK rf v Hlen Hp'. exists rf. rewrite Hpv in Hp'. inversion Hp'; subst v.
-      split; [reflexivity|]. split; [unfold rkval; rewrite B1, B2; eapply prefix_zth; eassumption|].
-      split; [lia|]. split; [lia|]. split; [auto|]. left. assumption.
+    + inversion Hp; subst save reg' s2. unfold opMaxIndexRk in Eci.
+      eapply popped_const; try eassumption. lia.
     + inversion Hp; subst. exact Hdef.
-  - (* a local variable *)
-    assert (Hb' : 0 <= b < 512) by lia.
+  - assert (Hb' : 0 <= b < 512) by lia.
     destruct (decodeABC OP_MOVE reg b 0 Hr Hb' ltac:(lia)) as [_ [EA [EB _]]].
     rewrite EA, EB in Hp. rewrite H2 in Hp. replace (reg >=? len locals) with true in Hp by lia.
     rewrite (is_opc_createABC OP_MOVE OP_LOADK reg b 0 Hr Hb' ltac:(lia)) in Hp.
     rewrite (is_opc_createABC OP_MOVE OP_MOVE reg b 0 Hr Hb' ltac:(lia)) in Hp.
-    cbn [op_code Z.eqb] in Hp. inversion Hp; subst.
-    unfold operand_ok. cbn [pop_code cs_locals cs_regtop cs_consts cs_code].
-    repeat (split; [reflexivity || assumption || lia|]).
-    exists []. split; [rewrite Hc; reflexivity|]. split; [constructor|].
-    intros K HK rf v Hlen Hp'. exists rf. rewrite Hpv in Hp'.
-    destruct (zth rf save) as [v0|] eqn:Ez; [|discriminate]. inversion Hp'; subst v0.
-    split; [reflexivity|]. split; [unfold rkval; rewrite small_not_K by lia; assumption|].
-    split; [lia|]. split; [lia|]. split; [auto|]. right. lia.
-  - (* anything else *)
-    rewrite Hn1, Hn2 in Hp.
+    cbn [op_code Z.eqb] in Hp. inversion Hp; subst save reg' s2.
+    eapply popped_var; eassumption.
+  - rewrite Hn1, Hn2 in Hp.
     destruct (opGetArgA w >=? cs_regtop s1); inversion Hp; subst; exact Hdef.
 Qed.
 
 Lemma mv_ok : forall s s1 locals ln reg e save reg' s2,
   expr_ok s s1 locals ln reg e -> len locals <= reg -> 0 <= reg < 256 -> len locals <= 256 ->
   propagateMV reg 1 s1 = Some ((save, reg'), s2) ->
-  operand_ok s s2 locals ln reg e save reg'.
+  operand_ok s s2 locals ln reg e save reg' /\ 0 <= save < 256.
 Proof.
   intros s s1 locals ln reg e save reg' s2 Hok Hl Hr Hloc Hp.
   pose proof (default_operand _ _ _ _ _ _ Hok Hr) as Hdef.
@@ -389,20 +471,14 @@ Proof.
   unfold propagateMV in Hp. rewrite Hc in Hp.
   destruct Hsh as [ci f Hseg Hci Hz Hpv | b Hseg Hb Hpv | w seg0 Hseg Hn1 Hn2]; subst seg; cbn [app] in Hp.
   - rewrite (is_opc_createABx OP_LOADK OP_MOVE reg ci Hr Hci) in Hp. cbn [op_code Z.eqb] in Hp.
-    rewrite andb_false_r in Hp. inversion Hp; subst. exact Hdef.
+    rewrite andb_false_r in Hp. inversion Hp; subst. split; [exact Hdef|lia].
   - assert (Hb' : 0 <= b < 512) by lia.
     destruct (decodeABC OP_MOVE reg b 0 Hr Hb' ltac:(lia)) as [_ [EA [EB _]]].
     rewrite EA, EB in Hp. rewrite H2 in Hp. replace (reg >=? len locals) with true in Hp by lia.
     rewrite (is_opc_createABC OP_MOVE OP_MOVE reg b 0 Hr Hb' ltac:(lia)) in Hp.
-    cbn [op_code Z.eqb andb] in Hp. inversion Hp; subst.
-    unfold operand_ok. cbn [pop_code cs_locals cs_regtop cs_consts cs_code].
-    repeat (split; [reflexivity || assumption || lia|]).
-    exists []. split; [rewrite Hc; reflexivity|]. split; [constructor|].
-    intros K HK rf v Hlen Hp'. exists rf. rewrite Hpv in Hp'.
-    destruct (zth rf save) as [v0|] eqn:Ez; [|discriminate]. inversion Hp'; subst v0.
-    split; [reflexivity|]. split; [unfold rkval; rewrite small_not_K by lia; assumption|].
-    split; [lia|]. split; [lia|]. split; [auto|]. right. lia.
-  - rewrite Hn2 in Hp. rewrite andb_false_r in Hp. inversion Hp; subst. exact Hdef.
+    cbn [op_code Z.eqb andb] in Hp. inversion Hp; subst save reg' s2.
+    split; [eapply popped_var; eassumption|lia].
+  - rewrite Hn2 in Hp. rewrite andb_false_r in Hp. inversion Hp; subst. split; [exact Hdef|lia].
 Qed.
 
 Lemma existsb_find_last : forall l x, existsb (beqb x) l = true -> find_last l x 0 (-1) > -1.
@@ -421,30 +497,28 @@ Proof.
   intros l x H. apply (G l x 0 (-1)); [lia | right; assumption | lia].
 Qed.
 
-(* one instruction that writes the value of e into reg *)
+(* one instruction that writes the value of e into reg (e never faults) *)
 Lemma leaf_ok : forall s locals ln reg e w,
   cs_locals s = locals -> cs_regtop s = len locals -> len (cs_consts s) <= 262144 ->
   0 <= w < 2 ^ 32 -> 0 <= reg ->
   shape (mkCS ((w, ln) :: cs_code s) (cs_consts s) (cs_locals s) (cs_regtop s)) locals reg ln e [(w, ln)] ->
+  (forall rf, pevr (vlook locals rf) e <> PFault) ->
+  (forall rf, reg <= len rf -> pevr (vlook locals rf) e <> PUnsup) ->
   (forall K, prefix_of (cs_consts s) K -> forall rf v, reg <= len rf -> pevr (vlook locals rf) e = PV v ->
      isem_inst K w rf = okres (setr rf reg v)) ->
   expr_ok s (mkCS ((w, ln) :: cs_code s) (cs_consts s) (cs_locals s) (cs_regtop s)) locals ln reg e.
 Proof.
-  intros s locals ln reg e w H1 H2 H3 Hw Hr Hsh Hsem.
+  intros s locals ln reg e w H1 H2 H3 Hw Hr Hsh Hnf Hnu Hsem.
   unfold expr_ok. cbn [cs_locals cs_regtop cs_consts cs_code].
   split; [assumption|]. split; [assumption|]. split; [assumption|]. split; [apply prefix_refl|].
   exists [(w, ln)]. split; [reflexivity|]. split; [constructor; [split; [assumption|reflexivity]|constructor]|].
   split; [assumption|].
-  intros K HK rf v Hlen Hp. cbn [rev app isem_okseq]. rewrite (Hsem K HK rf v Hlen Hp).
+  intros K HK rf Hlen Hs. destruct (pevr (vlook locals rf) e) as [v| |] eqn:Hp; [|exfalso; eapply Hnf; eassumption|exfalso; eapply Hnu; eassumption].
+  unfold val_post. cbn [rev app isem_okseq]. rewrite (Hsem K HK rf v Hlen Hp).
   destruct (setr_post rf reg v ltac:(lia)) as [rf' [E1 [E2 [E3 E4]]]]. rewrite E1. cbn [okres].
-  exists rf'. split; [reflexivity|]. split; [assumption|]. split; [assumption|]. intros i Hi. apply E4. lia.
-Qed.
-
-Lemma is_opc_rawABC : forall opn o' a b c, 0 <= opn < 64 -> 0 <= a < 256 -> 0 <= b < 512 -> 0 <= c < 512 ->
-  is_opc (opCreateABC opn a b c) o' = (opn =? op_code o').
-Proof.
-  intros opn o' a b c Ho Ha Hb Hc. unfold is_opc.
-  destruct (VM.OpcodeFacts.createABC_get opn a b c Ho Ha Hb Hc) as [E0 _]. rewrite E0. reflexivity.
+  exists rf'. split; [reflexivity|]. split; [assumption|]. split; [assumption|].
+  split; [intros i Hi; apply E4; lia|].
+  eapply setr_simple; [eassumption| |eassumption]. eapply pevr_simple; [apply vlook_simple; eassumption|eassumption].
 Qed.
 
 Lemma loadk_ok : forall s locals ln reg e f ci s1,
@@ -466,17 +540,171 @@ Proof.
   exists seg. rewrite <- K5. auto.
 Qed.
 
-(* the leaves of the fragment's expressions: literals, local variables, parentheses *)
-Fixpoint expr_leaf (locals : list name) (e : expr) : bool :=
-  match e with
-  | ENil | ETrue | EFalse | ENum _ => true
-  | EVar x => existsb (beqb x) locals
-  | EParen a => expr_leaf locals a
-  | _ => false
-  end.
+(* ---------- composing operands into operations ---------- *)
+Lemma rkval_stable : forall K rf rf' save reg', (opIsK save = true \/ save < reg') -> 0 <= save ->
+  (forall i, 0 <= i < reg' -> zth rf' i = zth rf i) -> rkval K rf' save = rkval K rf save.
+Proof.
+  intros K rf rf' save reg' H H0 Hz. unfold rkval. destruct (opIsK save) eqn:E; [reflexivity|].
+  destruct H as [H|H]; [discriminate|]. apply Hz. lia.
+Qed.
 
-Lemma compileExpr_leaf_ok : forall e locals ln reg ec s inc s',
-  expr_leaf locals e = true -> cs_locals s = locals -> cs_regtop s = len locals ->
+Lemma rkval_simple : forall K rf x v, Forall (fun c => is_simple c = true) K -> rf_simple rf -> rkval K rf x = Some v -> is_simple v = true.
+Proof.
+  intros K rf x v HK Hrf H. unfold rkval in H. destruct (opIsK x); apply zth_In in H.
+  - rewrite Forall_forall in HK. auto.
+  - unfold rf_simple in Hrf. rewrite Forall_forall in Hrf. auto.
+Qed.
+
+Lemma arith_compose : forall s sA sB locals ln reg o a b save1 reg1 save2 reg2,
+  operand_ok s sA locals ln reg a save1 reg1 ->
+  operand_ok sA sB locals ln reg1 b save2 reg2 ->
+  is_arith_op o = true -> len locals <= reg -> 0 <= reg < 256 ->
+  expr_ok s (mkCS ((opCreateABC (op_code (arith_opcode o)) reg save1 save2, ln) :: cs_code sB)
+                  (cs_consts sB) (cs_locals sB) (cs_regtop sB)) locals ln reg (EBin o a b).
+Proof.
+  intros s sA sB locals ln reg o a b save1 reg1 save2 reg2 HA HB Ho Hl Hr.
+  destruct HA as [A1 [A2 [A3 [A4 [A5 [A6 [segA [A7 [A8 A9]]]]]]]]].
+  destruct HB as [B1 [B2 [B3 [B4 [B5 [B6 [segB [B7 [B8 B9]]]]]]]]].
+  set (w := opCreateABC (op_code (arith_opcode o)) reg save1 save2).
+  unfold expr_ok. cbn [cs_locals cs_regtop cs_consts cs_code].
+  split; [assumption|]. split; [assumption|]. split; [assumption|]. split; [eapply prefix_trans; eassumption|].
+  exists ((w, ln) :: segB ++ segA).
+  split; [rewrite B7, A7; cbn [app]; rewrite <- app_assoc; reflexivity|].
+  split; [constructor; [split; [apply VM.OpcodeFacts.createABC_range|reflexivity]|apply Forall_app; split; assumption]|].
+  split.
+  { eapply ShOther; [reflexivity| |]; unfold w; rewrite is_opc_createABC by lia; destruct o; try discriminate; reflexivity. }
+  intros K HK rf Hlen Hs.
+  assert (HKA : prefix_of (cs_consts sA) K) by (eapply prefix_trans; eassumption).
+  specialize (A9 K HKA rf Hlen Hs). cbn [pevr].
+  cbn [rev]. rewrite rev_app_distr. 
+  destruct (pevr (vlook locals rf) a) as [x| |] eqn:Ea.
+  2:{ intro rest. rewrite <- !app_assoc. apply A9. }
+  2:{ intro rest. rewrite <- !app_assoc. apply A9. }
+  destruct A9 as [rfA [E1 [E2 [E3 [E4 [E5 [E6 E7]]]]]]].
+  assert (Hext : forall y, vlook locals rfA y = vlook locals rf y) by (apply vlook_ext with (reg := reg); assumption).
+  specialize (B9 K HK rfA E4 E6). rewrite (pevr_ext _ _ b Hext) in B9.
+  destruct (pevr (vlook locals rf) b) as [y| |] eqn:Eb.
+  2:{ intro rest. rewrite <- !app_assoc. rewrite (isem_code_app _ _ _ _ _ E1). apply B9. }
+  2:{ intro rest. rewrite <- !app_assoc. rewrite (isem_code_app _ _ _ _ _ E1). apply B9. }
+  destruct B9 as [rfB [F1 [F2 [F3 [F4 [F5 [F6 F7]]]]]]].
+  assert (Hx : rkval K rfB save1 = Some x).
+  { rewrite (rkval_stable K rfA rfB save1 reg1 E7 ltac:(lia) F5). assumption. }
+  assert (Hw : isem_inst K w rfB = arith_res K rfB o reg save1 save2) by (apply isem_arith; try assumption; lia).
+  assert (Hpre : isem_okseq K (rev segA ++ rev segB) rf = Some rfB).
+  { rewrite isem_okseq_app, E1. assumption. }
+  assert (Sx : is_simple x = true) by (eapply pevr_simple; [apply vlook_simple; exact Hs|exact Ea]).
+  assert (Sy : is_simple y = true) by (eapply pevr_simple; [apply vlook_simple; exact Hs|exact Eb]).
+  unfold parith.
+  destruct x as [| |fx| | | | | | |]; destruct y as [| |fy| | | | | | |];
+    try (intro rest; rewrite <- !app_assoc; rewrite (isem_code_app _ _ _ _ _ E1), (isem_code_app _ _ _ _ _ F1);
+         cbn [app isem_code]; rewrite Hw; unfold arith_res; rewrite Hx, F2; reflexivity);
+    try discriminate.
+  destruct (arith_op o fx fy) as [r|] eqn:Er.
+  2:{ intro rest. rewrite <- !app_assoc. rewrite (isem_code_app _ _ _ _ _ E1), (isem_code_app _ _ _ _ _ F1).
+      cbn [app isem_code]. rewrite Hw. unfold arith_res. rewrite Hx, F2, Er. reflexivity. }
+  destruct (setr_post rfB reg (VNum r) ltac:(lia)) as [rf' [S1 [S2 [S3 S4]]]].
+  exists rf'. split.
+  { rewrite isem_okseq_app, Hpre. cbn [isem_okseq]. rewrite Hw. unfold arith_res. rewrite Hx, F2, Er, S1. reflexivity. }
+  split; [assumption|]. split; [lia|]. split.
+  { intros i Hi. rewrite S4 by lia. rewrite F5 by lia. apply E5. assumption. }
+  exact (setr_simple rfB reg (VNum r) rf' F6 eq_refl S1).
+Qed.
+
+Lemma unm_compose : forall s sA locals ln reg a save reg1,
+  operand_ok s sA locals ln reg a save reg1 -> len locals <= reg -> 0 <= reg < 256 ->
+  expr_ok s (mkCS ((opCreateABC (op_code OP_UNM) reg save 0, ln) :: cs_code sA)
+                  (cs_consts sA) (cs_locals sA) (cs_regtop sA)) locals ln reg (EUn ONeg a).
+Proof.
+  intros s sA locals ln reg a save reg1 HA Hl Hr.
+  destruct HA as [A1 [A2 [A3 [A4 [A5 [A6 [segA [A7 [A8 A9]]]]]]]]].
+  set (w := opCreateABC (op_code OP_UNM) reg save 0).
+  unfold expr_ok. cbn [cs_locals cs_regtop cs_consts cs_code].
+  split; [assumption|]. split; [assumption|]. split; [assumption|]. split; [assumption|].
+  exists ((w, ln) :: segA).
+  split; [rewrite A7; reflexivity|].
+  split; [constructor; [split; [apply VM.OpcodeFacts.createABC_range|reflexivity]|assumption]|].
+  split.
+  { eapply ShOther; [reflexivity| |]; unfold w; rewrite is_opc_createABC by lia; reflexivity. }
+  intros K HK rf Hlen Hs. specialize (A9 K HK rf Hlen Hs). cbn [pevr rev].
+  destruct (pevr (vlook locals rf) a) as [x| |] eqn:Ea.
+  2:{ intro rest. rewrite <- app_assoc. apply A9. }
+  2:{ intro rest. rewrite <- app_assoc. apply A9. }
+  destruct A9 as [rfA [E1 [E2 [E3 [E4 [E5 [E6 E7]]]]]]].
+  assert (Sx : is_simple x = true) by (eapply pevr_simple; [apply vlook_simple; exact Hs|exact Ea]).
+  assert (Hw : isem_inst K w rfA = match rkval K rfA save with
+                                   | Some (VNum f) => okres (setr rfA reg (VNum (- f)%float))
+                                   | Some v => if is_simple v then IFault else IStuck
+                                   | None => IStuck end) by (apply isem_unm; lia).
+  rewrite E2 in Hw.
+  destruct x as [| |fx| | | | | | |]; try discriminate;
+    try (intro rest; rewrite <- app_assoc; rewrite (isem_code_app _ _ _ _ _ E1); cbn [app isem_code]; rewrite Hw; reflexivity).
+  destruct (setr_post rfA reg (VNum (- fx)%float) ltac:(lia)) as [rf' [S1 [S2 [S3 S4]]]].
+  exists rf'. split.
+  { rewrite isem_okseq_app, E1. cbn [isem_okseq]. rewrite Hw, S1. reflexivity. }
+  split; [assumption|]. split; [lia|]. split.
+  { intros i Hi. rewrite S4 by lia. apply E5. assumption. }
+  exact (setr_simple rfA reg (VNum (- fx)%float) rf' E6 eq_refl S1).
+Qed.
+
+Lemma not_compose : forall s sA locals ln reg a save reg1,
+  operand_ok s sA locals ln reg a save reg1 -> 0 <= save < 256 -> len locals <= reg -> 0 <= reg < 256 ->
+  expr_ok s (mkCS ((opCreateABC (op_code OP_NOT) reg save 0, ln) :: cs_code sA)
+                  (cs_consts sA) (cs_locals sA) (cs_regtop sA)) locals ln reg (EUn ONot a).
+Proof.
+  intros s sA locals ln reg a save reg1 HA Hsv Hl Hr.
+  destruct HA as [A1 [A2 [A3 [A4 [A5 [A6 [segA [A7 [A8 A9]]]]]]]]].
+  set (w := opCreateABC (op_code OP_NOT) reg save 0).
+  unfold expr_ok. cbn [cs_locals cs_regtop cs_consts cs_code].
+  split; [assumption|]. split; [assumption|]. split; [assumption|]. split; [assumption|].
+  exists ((w, ln) :: segA).
+  split; [rewrite A7; reflexivity|].
+  split; [constructor; [split; [apply VM.OpcodeFacts.createABC_range|reflexivity]|assumption]|].
+  split.
+  { eapply ShOther; [reflexivity| |]; unfold w; rewrite is_opc_createABC by lia; reflexivity. }
+  intros K HK rf Hlen Hs. specialize (A9 K HK rf Hlen Hs). cbn [pevr rev].
+  destruct (pevr (vlook locals rf) a) as [x| |] eqn:Ea.
+  2:{ intro rest. rewrite <- app_assoc. apply A9. }
+  2:{ intro rest. rewrite <- app_assoc. apply A9. }
+  destruct A9 as [rfA [E1 [E2 [E3 [E4 [E5 [E6 E7]]]]]]].
+  unfold rkval in E2. rewrite small_not_K in E2 by lia.
+  assert (Hw : isem_inst K w rfA = okres (setr rfA reg (VBool (negb (truthy x))))) by (apply isem_not; try lia; assumption).
+  destruct (setr_post rfA reg (VBool (negb (truthy x))) ltac:(lia)) as [rf' [S1 [S2 [S3 S4]]]].
+  exists rf'. split.
+  { rewrite isem_okseq_app, E1. cbn [isem_okseq]. rewrite Hw, S1. reflexivity. }
+  split; [assumption|]. split; [lia|]. split.
+  { intros i Hi. rewrite S4 by lia. apply E5. assumption. }
+  exact (setr_simple rfA reg (VBool (negb (truthy x))) rf' E6 eq_refl S1).
+Qed.
+
+Lemma zth_some_lt : forall (rf : rfile) b, 0 <= b < len rf -> exists v, zth rf b = Some v.
+Proof.
+  intros rf b H. unfold zth. destruct (b <? 0) eqn:E; [lia|].
+  destruct (nth_error rf (Z.to_nat b)) eqn:E2; [eauto|]. apply nth_error_None in E2. unfold len in H. lia.
+Qed.
+
+Lemma edepth_nonneg : forall e, 0 <= edepth e.
+Proof.
+  induction e; cbn [edepth]; try lia.
+Qed.
+
+Lemma loadbool_ok : forall s locals ln reg e bv,
+  cs_locals s = locals -> cs_regtop s = len locals -> len (cs_consts s) <= 262144 -> 0 <= reg < 256 ->
+  (forall look, pevr look e = PV (VBool bv)) ->
+  expr_ok s (mkCS ((opCreateABC (op_code OP_LOADBOOL) reg (if bv then 1 else 0) 0, ln) :: cs_code s)
+                  (cs_consts s) (cs_locals s) (cs_regtop s)) locals ln reg e.
+Proof.
+  intros s locals ln reg e bv H1 H2 H3 Hr Hp.
+  apply leaf_ok; try assumption; try lia.
+  - apply VM.OpcodeFacts.createABC_range.
+  - eapply ShOther; [reflexivity| |]; rewrite is_opc_createABC by (destruct bv; lia); reflexivity.
+  - intros rf Hx. rewrite Hp in Hx. discriminate.
+  - intros rf _ Hx. rewrite Hp in Hx. discriminate.
+  - intros K HK rf v Hlen Hv. rewrite Hp in Hv. inversion Hv; subst v.
+    rewrite isem_loadbool by (destruct bv; lia). destruct bv; reflexivity.
+Qed.
+
+Lemma compileExpr_ok : forall e locals ln reg ec s inc s',
+  expr_frag locals e = true -> cs_locals s = locals -> cs_regtop s = len locals ->
   len locals <= reg -> 0 <= reg -> reg + edepth e < 256 -> len locals <= 256 ->
   savereg ec reg = reg -> len (cs_consts s) <= 262144 ->
   compileExpr ln reg e ec s = Some (inc, s') ->
@@ -484,28 +712,22 @@ Lemma compileExpr_leaf_ok : forall e locals ln reg ec s inc s',
 Proof.
   induction e as [| | |f|sb| |x|ea IHa ek IHk|fe args|ob m args|ps va body l1 l2|o e1 IH1 e2 IH2|o e1 IH1|e1 IH1 e2 IH2|e1 IH1 e2 IH2|e1 IH1|items];
     intros locals ln reg ec s inc s' Hf H1 H2 Hl Hr0 Hd Hloc Hsv Hk Hc;
-    cbn [expr_leaf] in Hf; try discriminate; cbn [compileExpr] in Hc; rewrite ?Hsv in Hc;
+    cbn [expr_frag] in Hf; try discriminate; cbn [compileExpr] in Hc; rewrite ?Hsv in Hc;
     replace (reg <? reg) with false in Hc by lia; cbn [edepth] in Hd.
   - (* ENil *)
     unfold cbind, addABC, add, cret in Hc. inversion Hc; subst inc s'. split; [reflexivity|].
     apply leaf_ok; try assumption; try lia.
     + apply VM.OpcodeFacts.createABC_range.
     + eapply ShOther; [reflexivity| |]; rewrite is_opc_rawABC by lia; reflexivity.
+    + intros rf Hx. discriminate.
+    + intros rf _ Hx. discriminate.
     + intros K HK rf v Hlen Hv. cbn [pevr] in Hv. inversion Hv; subst v. apply isem_loadnil1. lia.
   - (* ETrue *)
     unfold cbind, addABC, add, cret in Hc. inversion Hc; subst inc s'. split; [reflexivity|].
-    apply leaf_ok; try assumption; try lia.
-    + apply VM.OpcodeFacts.createABC_range.
-    + eapply ShOther; [reflexivity| |]; rewrite is_opc_rawABC by lia; reflexivity.
-    + intros K HK rf v Hlen Hv. cbn [pevr] in Hv. inversion Hv; subst v.
-      rewrite isem_loadbool by lia. reflexivity.
+    apply (loadbool_ok s locals ln reg ETrue true); try assumption; try lia. intro look. reflexivity.
   - (* EFalse *)
     unfold cbind, addABC, add, cret in Hc. inversion Hc; subst inc s'. split; [reflexivity|].
-    apply leaf_ok; try assumption; try lia.
-    + apply VM.OpcodeFacts.createABC_range.
-    + eapply ShOther; [reflexivity| |]; rewrite is_opc_rawABC by lia; reflexivity.
-    + intros K HK rf v Hlen Hv. cbn [pevr] in Hv. inversion Hv; subst v.
-      rewrite isem_loadbool by lia. reflexivity.
+    apply (loadbool_ok s locals ln reg EFalse false); try assumption; try lia. intro look. reflexivity.
   - (* ENum *)
     unfold cbind at 1 in Hc. destruct (constIndex (VNum f) s) as [[ci s1]|] eqn:Eci; [|discriminate].
     unfold cbind, addABx, add, cret in Hc. inversion Hc; subst inc s'. split; [reflexivity|].
@@ -516,15 +738,86 @@ Proof.
     pose proof (find_last_range locals x 0 (-1) ltac:(lia)) as Hbr.
     replace (find_last locals x 0 (-1) >? -1) with true in Hc by lia.
     unfold cbind, addABC, add, cret in Hc. inversion Hc; subst inc s'. split; [reflexivity|].
+    assert (Hpv : forall rf, pevr (vlook locals rf) (EVar x) =
+                    match zth rf (find_last locals x 0 (-1)) with Some v => PV v | None => PUnsup end).
+    { intro rf. cbn [pevr]. unfold vlook. replace (find_last locals x 0 (-1) >? -1) with true by lia.
+      destruct (zth rf (find_last locals x 0 (-1))); reflexivity. }
     apply leaf_ok; try assumption; try lia.
     + apply VM.OpcodeFacts.createABC_range.
-    + eapply ShVar with (b := find_last locals x 0 (-1)); [reflexivity|lia|].
-      intro rf. cbn [pevr]. unfold vlook. replace (find_last locals x 0 (-1) >? -1) with true by lia.
-      destruct (zth rf (find_last locals x 0 (-1))); reflexivity.
-    + intros K HK rf v Hlen Hv. cbn [pevr] in Hv. unfold vlook in Hv.
-      replace (find_last locals x 0 (-1) >? -1) with true in Hv by lia.
+    + eapply ShVar with (b := find_last locals x 0 (-1)); [reflexivity|lia|exact Hpv].
+    + intros rf Hx. rewrite Hpv in Hx. destruct (zth rf (find_last locals x 0 (-1))); discriminate.
+    + intros rf Hlen Hx. rewrite Hpv in Hx.
+      destruct (zth_some_lt rf (find_last locals x 0 (-1)) ltac:(lia)) as [v Hv]. rewrite Hv in Hx. discriminate.
+    + intros K HK rf v Hlen Hv. rewrite Hpv in Hv.
       destruct (zth rf (find_last locals x 0 (-1))) as [v0|] eqn:Ez; [|discriminate]. inversion Hv; subst v0.
       apply isem_move; try lia. assumption.
+  - (* EBin *)
+    pose proof (edepth_nonneg e1) as Hd1. pose proof (edepth_nonneg e2) as Hd2.
+    apply andb_true_iff in Hf. destruct Hf as [Hf Hf2]. apply andb_true_iff in Hf. destruct Hf as [Ho Hf1].
+    rewrite Ho in Hc. cbn [negb] in Hc.
+    destruct (cfold (EBin o e1 e2)) as [[g|]|] eqn:Ecf; [| |discriminate].
+    + unfold cbind at 1 in Hc. destruct (constIndex (VNum g) s) as [[ci s1]|] eqn:Eci; [|discriminate].
+      unfold cbind, addABx, add, cret in Hc. inversion Hc; subst inc s'. split; [reflexivity|].
+      eapply loadk_ok; try eassumption; try lia. intro look. apply cfold_pevr. assumption.
+    + unfold cbind at 1 in Hc.
+      destruct (compileExpr ln reg e1 (ecnone 0) s) as [[inc1 sA1]|] eqn:Ca; [|discriminate].
+      destruct (IH1 locals ln reg (ecnone 0) s inc1 sA1 Hf1 H1 H2 Hl Hr0 ltac:(lia) Hloc eq_refl Hk Ca) as [Hi1 HokA1]. subst inc1.
+      unfold cbind at 1 in Hc.
+      destruct (propagateKMV reg 1 sA1) as [[[save1 reg1] sA]|] eqn:Pa; [|discriminate].
+      pose proof (kmv_ok _ _ _ _ _ _ _ _ _ HokA1 Hl ltac:(lia) Hloc Pa) as HA.
+      destruct HA as [A1 [A2 [A3 [A4 [A5 [A6 A7]]]]]].
+      unfold cbind at 1 in Hc.
+      destruct (compileExpr ln reg1 e2 (ecnone 0) sA) as [[inc2 sB1]|] eqn:Cb; [|discriminate].
+      destruct (IH2 locals ln reg1 (ecnone 0) sA inc2 sB1 Hf2 A1 A2 ltac:(lia) ltac:(lia) ltac:(lia) Hloc eq_refl A3 Cb) as [Hi2 HokB1]. subst inc2.
+      unfold cbind at 1 in Hc.
+      destruct (propagateKMV reg1 1 sB1) as [[[save2 reg2] sB]|] eqn:Pb; [|discriminate].
+      pose proof (kmv_ok _ _ _ _ _ _ _ _ _ HokB1 ltac:(lia) ltac:(lia) Hloc Pb) as HB.
+      unfold cbind, addABC, add, cret in Hc. inversion Hc; subst inc s'. split; [reflexivity|].
+      eapply arith_compose; try eassumption; try lia.
+      unfold operand_ok. repeat (split; [assumption|]). exact A7.
+  - (* EUn *)
+    pose proof (edepth_nonneg e1) as Hd1.
+    destruct o; try discriminate.
+    + (* ONeg *)
+      destruct (cfold (EUn ONeg e1)) as [[g|]|] eqn:Ecf; [| |discriminate].
+      * unfold cbind at 1 in Hc. destruct (constIndex (VNum g) s) as [[ci s1]|] eqn:Eci; [|discriminate].
+        unfold cbind, addABx, add, cret in Hc. inversion Hc; subst inc s'. split; [reflexivity|].
+        eapply loadk_ok; try eassumption; try lia. intro look. apply cfold_pevr. assumption.
+      * unfold cbind at 1 in Hc.
+        destruct (compileExpr ln reg e1 (ecnone 0) s) as [[inc1 sA1]|] eqn:Ca; [|discriminate].
+        destruct (IH1 locals ln reg (ecnone 0) s inc1 sA1 Hf H1 H2 Hl Hr0 ltac:(lia) Hloc eq_refl Hk Ca) as [Hi1 HokA1]. subst inc1.
+        unfold cbind at 1 in Hc.
+        destruct (propagateMV reg 1 sA1) as [[[save1 reg1] sA]|] eqn:Pa; [|discriminate].
+        destruct (mv_ok _ _ _ _ _ _ _ _ _ HokA1 Hl ltac:(lia) Hloc Pa) as [HA Hsv1].
+        unfold cbind, addABC, add, cret in Hc. cbn [fst] in Hc. inversion Hc; subst inc s'. split; [reflexivity|].
+        eapply unm_compose; try eassumption; lia.
+    + (* ONot *)
+      assert (General :
+        (cdo inc1 <- compileExpr ln reg e1 (ecnone 0);
+         cdo p1 <- propagateMV reg inc1;
+         cdo _ <- addABC OP_NOT reg (fst p1) 0 ln; cret 1) s = Some (inc, s') ->
+        inc = 1 /\ expr_ok s s' locals ln reg (EUn ONot e1)).
+      { intro Hg. unfold cbind at 1 in Hg.
+        destruct (compileExpr ln reg e1 (ecnone 0) s) as [[inc1 sA1]|] eqn:Ca; [|discriminate].
+        destruct (IH1 locals ln reg (ecnone 0) s inc1 sA1 Hf H1 H2 Hl Hr0 ltac:(lia) Hloc eq_refl Hk Ca) as [Hi1 HokA1]. subst inc1.
+        unfold cbind at 1 in Hg.
+        destruct (propagateMV reg 1 sA1) as [[[save1 reg1] sA]|] eqn:Pa; [|discriminate].
+        destruct (mv_ok _ _ _ _ _ _ _ _ _ HokA1 Hl ltac:(lia) Hloc Pa) as [HA Hsv1].
+        unfold cbind, addABC, add, cret in Hg. cbn [fst] in Hg. inversion Hg; subst inc s'. split; [reflexivity|].
+        eapply not_compose; try eassumption; lia. }
+      destruct (strip_paren e1) eqn:Es; try (apply General; exact Hc).
+      * (* not nil *)
+        unfold cbind, addABC, add, cret in Hc. inversion Hc; subst inc s'. split; [reflexivity|].
+        apply (loadbool_ok s locals ln reg (EUn ONot e1) true); try assumption; try lia.
+        intro look. cbn [pevr]. rewrite (pevr_strip look e1), Es. reflexivity.
+      * (* not true *)
+        unfold cbind, addABC, add, cret in Hc. inversion Hc; subst inc s'. split; [reflexivity|].
+        apply (loadbool_ok s locals ln reg (EUn ONot e1) false); try assumption; try lia.
+        intro look. cbn [pevr]. rewrite (pevr_strip look e1), Es. reflexivity.
+      * (* not false *)
+        unfold cbind, addABC, add, cret in Hc. inversion Hc; subst inc s'. split; [reflexivity|].
+        apply (loadbool_ok s locals ln reg (EUn ONot e1) true); try assumption; try lia.
+        intro look. cbn [pevr]. rewrite (pevr_strip look e1), Es. reflexivity.
   - (* EParen *)
     destruct (IH1 locals ln reg ec s inc s' Hf H1 H2 Hl Hr0 Hd Hloc Hsv Hk Hc) as [Hi Hok].
     split; [assumption|].
@@ -535,4 +828,488 @@ Proof.
       * eapply ShVar; try eassumption.
       * eapply ShOther; eassumption.
     + intros K HK. exact (A8 K HK).
+Qed.
+
+(* ---------- environments and registers ---------- *)
+Lemma beqb_refl : forall a, beqb a a = true.
+Proof. induction a; simpl; [reflexivity|]. rewrite Z.eqb_refl. assumption. Qed.
+
+Lemma beqb_sym : forall a b, beqb a b = beqb b a.
+Proof.
+  intros a b. destruct (beqb a b) eqn:E1; destruct (beqb b a) eqn:E2; try reflexivity.
+  - apply beqb_eq in E1. subst. rewrite beqb_refl in E2. discriminate.
+  - apply beqb_eq in E2. subst. rewrite beqb_refl in E1. discriminate.
+Qed.
+
+Lemma find_last_app : forall l x y i acc,
+  find_last (l ++ [x]) y i acc = if beqb x y then i + len l else find_last l y i acc.
+Proof.
+  induction l as [|z l IH]; intros x y i acc; cbn [app find_last].
+  - unfold len. cbn [length]. destruct (beqb x y); [lia|reflexivity].
+  - rewrite IH. unfold len. cbn [length]. destruct (beqb x y); [lia|reflexivity].
+Qed.
+
+(* the name at the index find_last returns *)
+Lemma find_last_name : forall l y i acc k, find_last l y i acc = k -> k <> acc -> 0 <= i ->
+  i <= k /\ exists z, zth l (k - i) = Some z /\ beqb z y = true.
+Proof.
+  induction l as [|z l IH]; intros y i acc k H Hk Hi; cbn [find_last] in H; [congruence|].
+  destruct (beqb z y) eqn:E.
+  - destruct (Z.eq_dec k i) as [->|Hne].
+    + split; [lia|]. exists z. replace (i - i) with 0 by lia. split; [reflexivity|assumption].
+    + destruct (IH y (i + 1) i k H Hne ltac:(lia)) as [H1 [z' [H2 H3]]].
+      split; [lia|]. exists z'. split; [|assumption].
+      replace (k - i) with (1 + (k - (i + 1))) by lia. rewrite zth_cons_succ by lia. assumption.
+  - destruct (IH y (i + 1) acc k H Hk ltac:(lia)) as [H1 [z' [H2 H3]]].
+    split; [lia|]. exists z'. split; [|assumption].
+    replace (k - i) with (1 + (k - (i + 1))) by lia. rewrite zth_cons_succ by lia. assumption.
+Qed.
+
+Lemma find_last_same_index : forall l x y, find_last l x 0 (-1) = find_last l y 0 (-1) ->
+  find_last l x 0 (-1) > -1 -> beqb y x = true.
+Proof.
+  intros l x y H Hx.
+  destruct (find_last_name l x 0 (-1) _ eq_refl ltac:(lia) ltac:(lia)) as [_ [z1 [Z1 B1]]].
+  destruct (find_last_name l y 0 (-1) _ eq_refl ltac:(lia) ltac:(lia)) as [_ [z2 [Z2 B2]]].
+  rewrite <- H in Z2. rewrite Z1 in Z2. inversion Z2; subst z2.
+  apply beqb_eq in B1. apply beqb_eq in B2. subst. apply beqb_refl.
+Qed.
+
+Definition env_rel (rho : penv) (locals : list name) (rf : rfile) : Prop :=
+  (forall x, plookup rho x = vlook locals rf x) /\ len locals <= len rf.
+
+Lemma env_pev : forall rho locals rf e, env_rel rho locals rf -> pev rho e = pevr (vlook locals rf) e.
+Proof. intros rho locals rf e [H _]. rewrite pev_pevr. apply pevr_ext. assumption. Qed.
+
+Lemma env_cons : forall rho locals rf rf' x v,
+  env_rel rho locals rf -> (forall i, 0 <= i < len locals -> zth rf' i = zth rf i) ->
+  zth rf' (len locals) = Some v ->
+  env_rel ((x, v) :: rho) (locals ++ [x]) rf'.
+Proof.
+  intros rho locals rf rf' x v [H Hl] Hlow Hv. split.
+  - intro y. cbn [plookup]. unfold vlook. rewrite find_last_app. rewrite Z.add_0_l.
+    rewrite (beqb_sym y x). destruct (beqb x y) eqn:E.
+    + pose proof (len_nonneg _ locals). replace (len locals >? -1) with true by lia. symmetry. assumption.
+    + rewrite H. unfold vlook.
+      pose proof (find_last_range locals y 0 (-1) ltac:(lia)) as Hr.
+      destruct (find_last locals y 0 (-1) >? -1) eqn:E2; [|reflexivity]. symmetry. apply Hlow. lia.
+  - rewrite len_app. unfold len at 2. cbn [length]. pose proof (zth_range _ _ _ _ Hv). lia.
+Qed.
+
+Lemma plookup_pupdate : forall rho x v y,
+  plookup (pupdate rho x v) y =
+  if beqb y x then match plookup rho x with Some _ => Some v | None => None end else plookup rho y.
+Proof.
+  induction rho as [|[z w] rho IH]; intros x v y; cbn [pupdate plookup].
+  - destruct (beqb y x); reflexivity.
+  - destruct (beqb x z) eqn:Exz.
+    + apply beqb_eq in Exz. subst z. cbn [plookup].
+      destruct (beqb y x) eqn:Eyx; reflexivity.
+    + cbn [plookup]. destruct (beqb y z) eqn:Eyz.
+      * destruct (beqb y x) eqn:Eyx; [|reflexivity].
+        apply beqb_eq in Eyz. apply beqb_eq in Eyx. subst. rewrite beqb_refl in Exz. discriminate.
+      * apply IH.
+Qed.
+
+Lemma env_update : forall rho locals rf rf' x v,
+  env_rel rho locals rf -> find_last locals x 0 (-1) > -1 ->
+  zth rf' (find_last locals x 0 (-1)) = Some v ->
+  (forall i, 0 <= i < len locals -> i <> find_last locals x 0 (-1) -> zth rf' i = zth rf i) ->
+  len rf <= len rf' ->
+  env_rel (pupdate rho x v) locals rf'.
+Proof.
+  intros rho locals rf rf' x v [H Hl] Hb Hv Hoth Hlen. split; [|lia].
+  intro y. rewrite plookup_pupdate.
+  pose proof (find_last_range locals x 0 (-1) ltac:(lia)) as Hbr.
+  destruct (beqb y x) eqn:E.
+  - apply beqb_eq in E. subst y. rewrite H. unfold vlook. replace (find_last locals x 0 (-1) >? -1) with true by lia.
+    destruct (zth_some_lt rf (find_last locals x 0 (-1)) ltac:(lia)) as [v0 Hv0]. rewrite Hv0. symmetry. assumption.
+  - rewrite H. unfold vlook.
+    pose proof (find_last_range locals y 0 (-1) ltac:(lia)) as Hyr.
+    destruct (find_last locals y 0 (-1) >? -1) eqn:E2; [|reflexivity].
+    symmetry. apply Hoth; [lia|]. intro Heq.
+    assert (beqb y x = true) by (apply (find_last_same_index locals x y); [congruence|assumption]). congruence.
+Qed.
+
+(* ---------- statements ---------- *)
+Fixpoint pevr_list (look : name -> option value) (es : list expr) : pres + list value :=
+  match es with
+  | [] => inr []
+  | e :: r => match pevr look e with
+              | PV v => match pevr_list look r with inr vs => inr (v :: vs) | inl x => inl x end
+              | x => inl x
+              end
+  end.
+
+Lemma pev_list_pevr : forall rho es, pev_list rho es = pevr_list (plookup rho) es.
+Proof. intros rho es. induction es; cbn [pev_list pevr_list]; [reflexivity|]. rewrite pev_pevr, IHes. reflexivity. Qed.
+
+Lemma pevr_list_ext : forall l1 l2 es, (forall x, l1 x = l2 x) -> pevr_list l1 es = pevr_list l2 es.
+Proof. intros l1 l2 es H. induction es; cbn [pevr_list]; [reflexivity|]. rewrite (pevr_ext l1 l2 a H), IHes. reflexivity. Qed.
+
+Definition ret_cres (ln : Z) (r : pres + list value) : cres :=
+  match r with inr vs => CRet vs | inl PFault => CFault ln | inl _ => CUnsup end.
+
+Definition stop_cres (ln : Z) (r : pres) : cres := match r with PFault => CFault ln | _ => CUnsup end.
+
+(* the expressions of a return list, compiled into consecutive registers *)
+Lemma crs_ok : forall es locals ln reg s reg' s',
+  forallb (expr_frag locals) es = true ->
+  (forall e, In e es -> reg + len es + edepth e < 256) ->
+  cs_locals s = locals -> cs_regtop s = len locals -> len locals <= reg -> 0 <= reg -> len locals <= 256 ->
+  len (cs_consts s) <= 262144 ->
+  crs_exprs ln reg es s = Some (reg', s') ->
+  reg' = reg + len es /\ cs_locals s' = locals /\ cs_regtop s' = len locals /\ len (cs_consts s') <= 262144 /\
+  prefix_of (cs_consts s) (cs_consts s') /\
+  exists seg, cs_code s' = seg ++ cs_code s /\ Forall (wl_ok ln) seg /\
+    forall K, prefix_of (cs_consts s') K -> forall rf, reg <= len rf -> rf_simple rf ->
+      match pevr_list (vlook locals rf) es with
+      | inr vs => exists rf', isem_okseq K (rev seg) rf = Some rf' /\
+                    (forall i, 0 <= i < len vs -> zth rf' (reg + i) = zth vs i) /\ len vs = len es /\
+                    reg + len es <= len rf' /\ (forall i, 0 <= i < reg -> zth rf' i = zth rf i) /\ rf_simple rf'
+      | inl r => forall rest, isem_code K (rev seg ++ rest) rf = stop_cres ln r
+      end.
+Proof.
+  induction es as [|e es IH]; intros locals ln reg s reg' s' Hf Hd H1 H2 Hl Hr Hloc Hk Hc.
+  - cbn [crs_exprs] in Hc. unfold cret in Hc. inversion Hc; subst. unfold len at 1. cbn [length].
+    split; [lia|]. repeat (split; [reflexivity || assumption || apply prefix_refl|]).
+    exists []. split; [reflexivity|]. split; [constructor|].
+    intros K HK rf Hlen Hs. cbn [pevr_list]. exists rf. cbn [rev isem_okseq].
+    split; [reflexivity|]. split; [intros i Hi; unfold len in Hi; cbn [length] in Hi; exfalso; lia|].
+    split; [reflexivity|]. split; [unfold len in *; cbn [length]; lia|]. split; [auto|assumption].
+  - cbn [forallb] in Hf. apply andb_true_iff in Hf. destruct Hf as [Hfe Hfs].
+    assert (Hlen_es : len (e :: es) = 1 + len es) by (unfold len; cbn [length]; lia).
+    pose proof (len_nonneg _ es) as Hnn.
+    cbn [crs_exprs] in Hc. unfold cbind at 1 in Hc.
+    destruct (compileExpr ln reg e (ecnone 0) s) as [[inc sA]|] eqn:Ce; [|discriminate].
+    assert (Hde : reg + edepth e < 256) by (specialize (Hd e (or_introl eq_refl)); lia).
+    destruct (compileExpr_ok e locals ln reg (ecnone 0) s inc sA Hfe H1 H2 Hl Hr Hde Hloc eq_refl Hk Ce) as [Hi Hok]. subst inc.
+    destruct Hok as [A1 [A2 [A3 [A4 [segA [A5 [A6 [A7 A8]]]]]]]].
+    assert (Hd' : forall e0, In e0 es -> reg + 1 + len es + edepth e0 < 256).
+    { intros e0 Hin. specialize (Hd e0 (or_intror Hin)). lia. }
+    destruct (IH locals ln (reg + 1) sA reg' s' Hfs Hd' A1 A2 ltac:(lia) ltac:(lia) Hloc A3 Hc)
+      as [B0 [B1 [B2 [B3 [B4 [segB [B5 [B6 B7]]]]]]]].
+    split; [lia|]. split; [assumption|]. split; [assumption|]. split; [assumption|].
+    split; [eapply prefix_trans; eassumption|].
+    exists (segB ++ segA). split; [rewrite B5, A5, app_assoc; reflexivity|].
+    split; [apply Forall_app; split; assumption|].
+    intros K HK rf Hlen Hs. rewrite rev_app_distr.
+    assert (HKA : prefix_of (cs_consts sA) K) by (eapply prefix_trans; eassumption).
+    specialize (A8 K HKA rf Hlen Hs). cbn [pevr_list].
+    destruct (pevr (vlook locals rf) e) as [v| |] eqn:Ee.
+    2:{ intro rest. rewrite <- app_assoc. apply A8. }
+    2:{ intro rest. rewrite <- app_assoc. apply A8. }
+    destruct A8 as [rfA [E1 [E2 [E3 [E4 E5]]]]].
+    assert (Hext : forall y, vlook locals rfA y = vlook locals rf y) by (apply vlook_ext with (reg := reg); assumption).
+    pose proof (zth_range _ _ _ _ E2) as HrA.
+    specialize (B7 K HK rfA ltac:(lia) E5). rewrite (pevr_list_ext _ _ es Hext) in B7.
+    destruct (pevr_list (vlook locals rf) es) as [r|vs] eqn:Es.
+    { intro rest. rewrite <- app_assoc. rewrite (isem_code_app _ _ _ _ _ E1). apply B7. }
+    destruct B7 as [rfB [F1 [F2 [F3 [F4 [F5 F6]]]]]].
+    exists rfB. split; [rewrite isem_okseq_app, E1; assumption|].
+    split.
+    { intros i Hi. assert (Hlv : len (v :: vs) = 1 + len vs) by (unfold len; cbn [length]; lia).
+      destruct (Z.eq_dec i 0) as [->|Hne].
+      - rewrite Z.add_0_r. rewrite F5 by lia. rewrite E2. reflexivity.
+      - replace (reg + i) with (reg + 1 + (i - 1)) by lia. rewrite F2 by lia.
+        replace i with (1 + (i - 1)) at 2 by lia. rewrite zth_cons_succ by lia. reflexivity. }
+    split; [unfold len in *; cbn [length]; lia|]. split; [lia|].
+    split; [intros i Hi; rewrite F5 by lia; apply E4; assumption|assumption].
+Qed.
+
+Definition u32 (wl : Z * Z) : Prop := 0 <= fst wl < 2 ^ 32.
+
+Lemma wl_u32 : forall ln seg, Forall (wl_ok ln) seg -> Forall u32 seg.
+Proof. intros ln seg H. eapply Forall_impl; [|exact H]. intros a [Ha _]. exact Ha. Qed.
+
+Definition cinv (s : cstate) (locals : list name) : Prop :=
+  cs_locals s = locals /\ cs_regtop s = len locals /\ len (cs_consts s) <= 262144 /\ len locals <= 200.
+
+Definition stmt_post (K : list value) (seg : list (Z * Z)) (ln : Z) (rf : rfile) (r : pres)
+  (next : value -> rfile -> Prop) : Prop :=
+  match r with
+  | PV v => exists rf', isem_okseq K (rev seg) rf = Some rf' /\ next v rf' /\ rf_simple rf'
+  | PFault => forall rest, isem_code K (rev seg ++ rest) rf = CFault ln
+  | PUnsup => forall rest, isem_code K (rev seg ++ rest) rf = CUnsup
+  end.
+
+Lemma local_ok : forall ln x e s s' locals u,
+  expr_frag locals e = true -> len locals + 1 + edepth e <= 250 -> cinv s locals ->
+  compileStmt (SLocal ln [x] [e]) s = Some (u, s') ->
+  cinv s' (locals ++ [x]) /\ prefix_of (cs_consts s) (cs_consts s') /\
+  exists seg, cs_code s' = seg ++ cs_code s /\ Forall u32 seg /\
+    forall K, prefix_of (cs_consts s') K -> forall rho rf, env_rel rho locals rf -> rf_simple rf ->
+      stmt_post K seg ln rf (pev rho e) (fun v rf' => env_rel ((x, v) :: rho) (locals ++ [x]) rf').
+Proof.
+  intros ln x e s s' locals u Hf Hd [H1 [H2 [H3 H4]]] Hc.
+  pose proof (len_nonneg _ locals) as Hnn. pose proof (edepth_nonneg e) as Hen.
+  cbn [compileStmt] in Hc. unfold compileLocalAssignStmt, compileRegAssignment in Hc.
+  cbn [length cra_assigned register_locals] in Hc. unfold cbind at 1 2 3 in Hc.
+  destruct (compileExpr ln (cs_regtop s) e (mkEc EcLocal (cs_regtop s) 0) s) as [[inc sA]|] eqn:Ce; [|discriminate].
+  cbn [cra_assigned] in Hc. unfold cret at 1 in Hc. cbn [cra_extra] in Hc. unfold cbind, cret in Hc.
+  unfold RegisterLocalVar in Hc.
+  destruct (cs_regtop sA + 1 >? maxLocalVars) eqn:Et; [discriminate|]. inversion Hc; subst s'. clear Hc.
+  rewrite H2 in Ce.
+  assert (Hsv : savereg (mkEc EcLocal (len locals) 0) (len locals) = len locals).
+  { unfold savereg. cbn [ec_reg ec_type]. destruct (len locals =? regNotDefined); reflexivity. }
+  destruct (compileExpr_ok e locals ln (len locals) _ s inc sA Hf H1 H2 ltac:(lia) ltac:(lia) ltac:(lia) ltac:(lia) Hsv H3 Ce)
+    as [Hi [A1 [A2 [A3 [A4 [seg [A5 [A6 [A7 A8]]]]]]]]].
+  unfold maxLocalVars in Et.
+  assert (Hla : len (locals ++ [x]) = len locals + 1) by (unfold len; rewrite app_length; cbn [length]; lia).
+  split.
+  { unfold cinv. cbn [cs_locals cs_regtop cs_consts]. rewrite A1, A2, Hla. repeat split; try reflexivity; try assumption; lia. }
+  cbn [cs_consts cs_code]. split; [assumption|].
+  exists seg. split; [assumption|]. split; [eapply wl_u32; eassumption|].
+  intros K HK rho rf Henv Hs. rewrite (env_pev rho locals rf e Henv).
+  pose proof (A8 K HK rf (proj2 Henv) Hs) as S. unfold stmt_post.
+  destruct (pevr (vlook locals rf) e) as [v| |]; [|exact S|exact S].
+  destruct S as [rf' [E1 [E2 [E3 [E4 E5]]]]].
+  exists rf'. split; [assumption|]. split; [|assumption].
+  eapply env_cons; eassumption.
+Qed.
+
+Lemma assign_ok : forall ln x e s s' locals u,
+  existsb (beqb x) locals = true ->
+  expr_frag locals e = true -> len locals + 1 + edepth e <= 250 -> cinv s locals ->
+  compileStmt (SAssign ln [EVar x] [e]) s = Some (u, s') ->
+  cinv s' locals /\ prefix_of (cs_consts s) (cs_consts s') /\
+  exists seg, cs_code s' = seg ++ cs_code s /\ Forall u32 seg /\
+    forall K, prefix_of (cs_consts s') K -> forall rho rf, env_rel rho locals rf -> rf_simple rf ->
+      stmt_post K seg ln rf (pev rho e) (fun v rf' => env_rel (pupdate rho x v) locals rf').
+Proof.
+  intros ln x e s s' locals u Hx Hf Hd [H1 [H2 [H3 H4]]] Hc.
+  pose proof (len_nonneg _ locals) as Hnn. pose proof (edepth_nonneg e) as Hen.
+  cbn [compileStmt assign_targets] in Hc. unfold compileAssignStmt in Hc.
+  cbn [length car_names] in Hc. unfold cbind at 1 2 in Hc.
+  destruct (compileExpr ln (cs_regtop s) e (mkEc EcLocal regNotDefined 0) s) as [[inc sA]|] eqn:Ce; [|discriminate].
+  rewrite H2 in Ce.
+  assert (Q1 : len locals <= len locals) by lia.
+  assert (Q3 : len locals + edepth e < 256) by lia.
+  assert (Q4 : len locals <= 256) by lia.
+  destruct (compileExpr_ok e locals ln (len locals) (mkEc EcLocal regNotDefined 0) s inc sA Hf H1 H2 Q1 Hnn Q3 Q4 eq_refl H3 Ce)
+    as [Hi [A1 [A2 [A3 [A4 [seg [A5 [A6 [A7 A8]]]]]]]]].
+  subst inc. cbn [tl car_names] in Hc. unfold cret at 1 in Hc. cbn [car_extra] in Hc.
+  unfold cbind at 1 in Hc. unfold cret at 1 in Hc. cbn [rev app cas_moves] in Hc.
+  unfold cbind, addABC, add, cret in Hc. inversion Hc; subst s'. clear Hc.
+  unfold FindLocalVar. rewrite A1, H2.
+  replace (len locals + 1 - 1) with (len locals) by lia.
+  set (idx := find_last locals x 0 (-1)).
+  pose proof (existsb_find_last locals x Hx) as Hi0. fold idx in Hi0.
+  pose proof (find_last_range locals x 0 (-1) ltac:(lia)) as Hi1. fold idx in Hi1.
+  split.
+  { unfold cinv. cbn [cs_locals cs_regtop cs_consts]. repeat split; assumption. }
+  cbn [cs_consts cs_code]. split; [assumption|].
+  exists ((opCreateABC (op_code OP_MOVE) idx (len locals) 0, ln) :: seg).
+  split; [rewrite A5; replace (@len name locals + 1 - 1) with (@len bytes locals) by (change name with bytes; lia); reflexivity|].
+  split; [constructor; [apply VM.OpcodeFacts.createABC_range|eapply wl_u32; eassumption]|].
+  intros K HK rho rf Henv Hs. rewrite (env_pev rho locals rf e Henv).
+  pose proof (A8 K HK rf (proj2 Henv) Hs) as S. unfold stmt_post. cbn [rev].
+  destruct (pevr (vlook locals rf) e) as [v| |] eqn:Ee.
+  2:{ intro rest. rewrite <- app_assoc. apply S. }
+  2:{ intro rest. rewrite <- app_assoc. apply S. }
+  destruct S as [rfA [E1 [E2 [E3 [E4 E5]]]]].
+  destruct (setr_post rfA idx v ltac:(destruct Henv; lia)) as [rfB [F1 [F2 [F3 F4]]]].
+  assert (Sv : is_simple v = true).
+  { unfold rf_simple in E5. rewrite Forall_forall in E5. apply E5. eapply zth_In; eassumption. }
+  exists rfB. split.
+  { rewrite isem_okseq_app, E1. cbn [isem_okseq].
+    rewrite (isem_move K idx (len locals) rfA v ltac:(lia) ltac:(lia) E2). rewrite F1. reflexivity. }
+  split; [|eapply setr_simple; eassumption].
+  apply (env_update rho locals rf rfB x v Henv); fold idx; try assumption; try lia.
+  intros i Hi Hne. rewrite F4 by assumption. apply E4. assumption.
+Qed.
+
+(* ---------- return ---------- *)
+Lemma isem_return : forall K a b rf, 0 <= a < 256 -> 1 <= b < 512 -> a + (b - 1) <= len rf ->
+  isem_inst K (opCreateABC (op_code OP_RETURN) a b 0) rf = IRet (firstn (Z.to_nat (b - 1)) (skipn (Z.to_nat a) rf)).
+Proof.
+  intros K a b rf Ha Hb Hl. destruct (decodeABC OP_RETURN a b 0 Ha ltac:(lia) ltac:(lia)) as [E0 [E1 [E2 E3]]].
+  unfold isem_inst. rewrite E0, E1, E2.
+  replace ((1 <=? b) && (a + (b - 1) <=? len rf) && (0 <=? a)) with true by lia. reflexivity.
+Qed.
+
+Lemma skipn_nth_cons : forall A (l : list A) n v, nth_error l n = Some v -> skipn n l = v :: skipn (S n) l.
+Proof.
+  induction l as [|y l IH]; intros n v H.
+  - destruct n; discriminate.
+  - destruct n as [|n]; cbn [nth_error] in H.
+    + inversion H; subst. reflexivity.
+    + cbn [skipn]. rewrite (IH n v H). destruct l; reflexivity.
+Qed.
+
+Lemma skipn_zth_cons : forall (rf : rfile) a v, zth rf a = Some v ->
+  skipn (Z.to_nat a) rf = v :: skipn (Z.to_nat (a + 1)) rf.
+Proof.
+  intros rf a v H. unfold zth in H. destruct (a <? 0) eqn:E; [discriminate|].
+  replace (Z.to_nat (a + 1)) with (S (Z.to_nat a)) by lia. apply skipn_nth_cons. assumption.
+Qed.
+
+Lemma firstn_skipn_zth : forall (vs : list value) (rf : rfile) a, 0 <= a ->
+  (forall i, 0 <= i < len vs -> zth rf (a + i) = zth vs i) ->
+  firstn (length vs) (skipn (Z.to_nat a) rf) = vs.
+Proof.
+  induction vs as [|v vs IH]; intros rf a Ha H; [reflexivity|].
+  assert (Hlv : len (v :: vs) = 1 + len vs) by (unfold len; cbn [length]; lia).
+  pose proof (len_nonneg _ vs) as Hnn.
+  assert (H0 : zth rf a = Some v).
+  { specialize (H 0 ltac:(lia)). rewrite Z.add_0_r in H. rewrite H. reflexivity. }
+  rewrite (skipn_zth_cons rf a v H0). cbn [length firstn]. f_equal.
+  apply IH; [lia|]. intros i Hi. replace (a + 1 + i) with (a + (1 + i)) by lia.
+  rewrite H by lia. apply zth_cons_succ. lia.
+Qed.
+
+Definition ret_general (ln : Z) (es : list expr) : CM unit :=
+  fun s => (cdo reg <- crs_exprs ln (cs_regtop s) es;
+            addABC OP_RETURN (cs_regtop s) (reg - cs_regtop s + 1) 0 ln) s.
+
+Definition ret_concl (ln : Z) (es : list expr) (locals : list name) (s s' : cstate) : Prop :=
+  len (cs_consts s') <= 262144 /\ prefix_of (cs_consts s) (cs_consts s') /\
+  exists seg, cs_code s' = seg ++ cs_code s /\ Forall u32 seg /\
+    forall K, prefix_of (cs_consts s') K -> forall rho rf, env_rel rho locals rf -> rf_simple rf ->
+      forall rest, isem_code K (rev seg ++ rest) rf = ret_cres ln (pev_list rho es).
+
+Lemma ret_general_ok : forall ln es s s' locals u,
+  forallb (expr_frag locals) es = true ->
+  forallb (fun e => len locals + len es + 1 + edepth e <=? 250) es = true -> cinv s locals ->
+  ret_general ln es s = Some (u, s') -> ret_concl ln es locals s s'.
+Proof.
+  intros ln es s s' locals u Hf Hd [H1 [H2 [H3 H4]]] Hc.
+  pose proof (len_nonneg _ locals) as Hnn. pose proof (len_nonneg _ es) as Hne.
+  unfold ret_general in Hc. unfold cbind at 1 in Hc. rewrite H2 in Hc.
+  destruct (crs_exprs ln (len locals) es s) as [[reg' sA]|] eqn:Cr; [|discriminate].
+  assert (Hd' : forall e, In e es -> len locals + len es + edepth e < 256).
+  { intros e Hin. rewrite forallb_forall in Hd. specialize (Hd e Hin). lia. }
+  assert (Hb : len es + 1 < 512).
+  { destruct es as [|e0 r]; [unfold len; cbn [length]; lia|].
+    specialize (Hd' e0 (or_introl eq_refl)). pose proof (edepth_nonneg e0). lia. }
+  assert (Q1 : len locals <= len locals) by lia. assert (Q4 : len locals <= 256) by lia.
+  destruct (crs_ok es locals ln (len locals) s reg' sA Hf Hd' H1 H2 Q1 Hnn Q4 H3 Cr)
+    as [B0 [B1 [B2 [B3 [B4 [seg [B5 [B6 B7]]]]]]]].
+  unfold addABC, add in Hc. inversion Hc; subst s'. clear Hc.
+  unfold ret_concl. cbn [cs_consts cs_code]. split; [assumption|]. split; [assumption|].
+  exists ((opCreateABC (op_code OP_RETURN) (len locals) (reg' - len locals + 1) 0, ln) :: seg).
+  split; [rewrite B5; reflexivity|].
+  split; [constructor; [apply VM.OpcodeFacts.createABC_range|eapply wl_u32; eassumption]|].
+  intros K HK rho rf Henv Hs rest. rewrite pev_list_pevr.
+  rewrite (pevr_list_ext _ _ es (proj1 Henv)).
+  specialize (B7 K HK rf (proj2 Henv) Hs). cbn [rev]. rewrite <- app_assoc.
+  destruct (pevr_list (vlook locals rf) es) as [r|vs].
+  { rewrite B7. destruct r; reflexivity. }
+  destruct B7 as [rf' [F1 [F2 [F3 [F4 [F5 F6]]]]]].
+  rewrite (isem_code_app _ _ _ _ _ F1). cbn [app isem_code].
+  rewrite isem_return by lia. subst reg'.
+  replace (len locals + len es - len locals + 1 - 1) with (len vs) by lia.
+  unfold len at 1. rewrite Nat2Z.id. rewrite (firstn_skipn_zth vs rf' (len locals) Hnn F2). reflexivity.
+Qed.
+
+Lemma return_split : forall ln es s,
+  compileReturnStmt ln es s = ret_general ln es s \/
+  exists e x, es = [e] /\ strip_paren e = EVar x /\ FindLocalVar s x > -1 /\
+              compileReturnStmt ln es s = addABC OP_RETURN (FindLocalVar s x) 2 0 ln s.
+Proof.
+  intros ln es s. unfold compileReturnStmt, ret_general.
+  destruct es as [|e [|e2 r]]; try (left; reflexivity).
+  destruct (strip_paren e) eqn:Es; try (left; reflexivity).
+  destruct (FindLocalVar s x >? -1) eqn:Ei; [|left; reflexivity].
+  right. exists e, x. repeat split; try assumption; try reflexivity. lia.
+Qed.
+
+Lemma return_ok : forall ln es s s' locals u,
+  forallb (expr_frag locals) es = true ->
+  forallb (fun e => len locals + len es + 1 + edepth e <=? 250) es = true -> cinv s locals ->
+  compileStmt (SReturn ln es) s = Some (u, s') -> ret_concl ln es locals s s'.
+Proof.
+  intros ln es s s' locals u Hf Hd Hinv Hc. cbn [compileStmt] in Hc.
+  destruct (return_split ln es s) as [E|[e [x [E1 [E2 [E3 E4]]]]]].
+  { rewrite E in Hc. eapply ret_general_ok; eassumption. }
+  rewrite E4 in Hc. destruct Hinv as [H1 [H2 [H3 H4]]]. subst es.
+  unfold FindLocalVar in *. rewrite H1 in *. set (idx := find_last locals x 0 (-1)) in *.
+  pose proof (find_last_range locals x 0 (-1) ltac:(lia)) as Hi1. fold idx in Hi1.
+  unfold addABC, add in Hc. inversion Hc; subst s'. clear Hc.
+  unfold ret_concl. cbn [cs_consts cs_code]. split; [assumption|]. split; [apply prefix_refl|].
+  exists [(opCreateABC (op_code OP_RETURN) idx 2 0, ln)]. split; [reflexivity|].
+  split; [constructor; [apply VM.OpcodeFacts.createABC_range|constructor]|].
+  intros K HK rho rf Henv Hs rest. cbn [rev app isem_code pev_list].
+  rewrite (env_pev rho locals rf e Henv). rewrite pevr_strip, E2. cbn [pevr].
+  unfold vlook. fold idx. replace (idx >? -1) with true by lia.
+  destruct Henv as [_ Hlen].
+  destruct (zth_some_lt rf idx ltac:(lia)) as [v Hv]. rewrite Hv.
+  rewrite isem_return by lia. rewrite (skipn_zth_cons rf idx v Hv). reflexivity.
+Qed.
+
+(* ---------- the chunk ---------- *)
+Definition final_ret (ln : Z) : Z * Z := (opCreateABC (op_code OP_RETURN) 0 1 0, ln).
+
+Lemma chunk_ok : forall b locals s u s',
+  stmts_frag locals b = true -> cinv s locals -> compileChunk b s = Some (u, s') ->
+  len (cs_consts s') <= 262144 /\ prefix_of (cs_consts s) (cs_consts s') /\
+  exists seg, cs_code s' = seg ++ cs_code s /\ Forall u32 seg /\
+    forall K, prefix_of (cs_consts s') K -> forall rho rf fin, env_rel rho locals rf -> rf_simple rf ->
+      isem_code K (rev seg ++ [final_ret fin]) rf = prun rho b.
+Proof.
+  induction b as [|st b IH]; intros locals s u s' Hf Hinv Hc.
+  - cbn [compileChunk] in Hc. unfold cret in Hc. inversion Hc; subst s'.
+    destruct Hinv as [H1 [H2 [H3 H4]]]. split; [assumption|]. split; [apply prefix_refl|].
+    exists []. split; [reflexivity|]. split; [constructor|].
+    intros K HK rho rf fin Henv Hs. cbn [rev app isem_code prun final_ret].
+    rewrite isem_return by (pose proof (len_nonneg _ rf); lia). reflexivity.
+  - cbn [compileChunk] in Hc. unfold cbind at 1 in Hc.
+    destruct (compileStmt st s) as [[u1 s1]|] eqn:Cs; [|discriminate].
+    destruct st as [ln xs es|ln lhs es| | | | | | | | |ln es| | |]; cbn [stmts_frag] in Hf; try discriminate.
+    + (* local *)
+      destruct xs as [|x [|x2 xs]]; try discriminate. destruct es as [|e [|e2 es]]; try discriminate.
+      apply andb_true_iff in Hf. destruct Hf as [Hf Hr]. apply andb_true_iff in Hf. destruct Hf as [Hf Hd].
+      apply andb_true_iff in Hf. destruct Hf as [_ Hf]. unfold maxRegisters in Hd.
+      destruct (local_ok ln x e s s1 locals u1 Hf ltac:(lia) Hinv Cs) as [I1 [P1 [segA [C1 [U1 S1]]]]].
+      destruct (IH (locals ++ [x]) s1 u s' Hr I1 Hc) as [K2 [P2 [segB [C2 [U2 S2]]]]].
+      split; [assumption|]. split; [eapply prefix_trans; eassumption|].
+      exists (segB ++ segA). split; [rewrite C2, C1, app_assoc; reflexivity|].
+      split; [apply Forall_app; split; assumption|].
+      intros K HK rho rf fin Henv Hs. rewrite rev_app_distr, <- app_assoc. cbn [prun].
+      specialize (S1 K (prefix_trans _ _ _ P2 HK) rho rf Henv Hs). unfold stmt_post in S1.
+      destruct (pev rho e) as [v| |]; [|apply S1|apply S1].
+      destruct S1 as [rf' [E1 [E2 E3]]]. rewrite (isem_code_app _ _ _ _ _ E1). apply S2; assumption.
+    + (* assignment *)
+      destruct lhs as [|l1 lhs]; try discriminate. destruct l1; try discriminate. destruct lhs; try discriminate.
+      destruct es as [|e [|e2 es]]; try discriminate.
+      apply andb_true_iff in Hf. destruct Hf as [Hf Hr]. apply andb_true_iff in Hf. destruct Hf as [Hf Hd].
+      apply andb_true_iff in Hf. destruct Hf as [Hx Hf]. unfold maxRegisters in Hd. change name with bytes in Hd.
+      destruct (assign_ok ln x e s s1 locals u1 Hx Hf ltac:(lia) Hinv Cs) as [I1 [P1 [segA [C1 [U1 S1]]]]].
+      destruct (IH locals s1 u s' Hr I1 Hc) as [K2 [P2 [segB [C2 [U2 S2]]]]].
+      split; [assumption|]. split; [eapply prefix_trans; eassumption|].
+      exists (segB ++ segA). split; [rewrite C2, C1, app_assoc; reflexivity|].
+      split; [apply Forall_app; split; assumption|].
+      intros K HK rho rf fin Henv Hs. rewrite rev_app_distr, <- app_assoc. cbn [prun].
+      specialize (S1 K (prefix_trans _ _ _ P2 HK) rho rf Henv Hs). unfold stmt_post in S1.
+      destruct (pev rho e) as [v| |]; [|apply S1|apply S1].
+      destruct S1 as [rf' [E1 [E2 E3]]]. rewrite (isem_code_app _ _ _ _ _ E1). apply S2; assumption.
+    + (* return *)
+      apply andb_true_iff in Hf. destruct Hf as [Hf Hd]. apply andb_true_iff in Hf. destruct Hf as [Hb Hf].
+      destruct b; [|discriminate]. cbn [compileChunk] in Hc. unfold cret in Hc. inversion Hc; subst s'.
+      unfold maxRegisters in Hd.
+      destruct (return_ok ln es s s1 locals u1 Hf Hd Hinv Cs) as [K1 [P1 [seg [C1 [U1 S1]]]]].
+      split; [assumption|]. split; [assumption|].
+      exists seg. split; [assumption|]. split; [assumption|].
+      intros K HK rho rf fin Henv Hs. cbn [prun]. apply (S1 K HK rho rf Henv Hs).
+Qed.
+
+(* ---------- the front half of frag_compile_correct (the statement is CC/FragGlue.front_half) ---------- *)
+Theorem front_half_lemma :
+  forall b x s, in_frag b = true -> compileChunk b (mkCS [] [] [] 0) = Some (x, s) ->
+    let full := rev ((opCreateABC (op_code OP_RETURN) 0 1 0, last_line b 0) :: cs_code s) in
+    isem_code (cs_consts s) full [] = prun [] b /\ Forall (fun wl => 0 <= fst wl < 2 ^ 32) full.
+Proof.
+  intros b x s Hin Hc full. unfold in_frag in Hin.
+  assert (Hinv : cinv (mkCS [] [] [] 0) []).
+  { unfold cinv, len. cbn [cs_locals cs_regtop cs_consts length]. repeat split; lia. }
+  destruct (chunk_ok b [] (mkCS [] [] [] 0) x s Hin Hinv Hc) as [K1 [P1 [seg [C1 [U1 S1]]]]].
+  cbn [cs_code] in C1. rewrite app_nil_r in C1.
+  assert (Hfull : full = rev seg ++ [final_ret (last_line b 0)]).
+  { unfold full. rewrite C1. reflexivity. }
+  rewrite Hfull. split.
+  - apply (S1 (cs_consts s) (prefix_refl _) [] [] (last_line b 0)); [|constructor].
+    split; [|unfold len; cbn [length]; lia]. intro y. reflexivity.
+  - apply Forall_app. split.
+    + apply Forall_rev. exact U1.
+    + constructor; [|constructor]. unfold final_ret. cbn [fst]. apply VM.OpcodeFacts.createABC_range.
 Qed.
